@@ -23,34 +23,45 @@ Outcomes == {"Val", "Break", "Continue", "Return", "Panic"}
 Forms == {"map", "map_byval", "collect"}
 
 VARIABLES form, n, i, slots, pushed, pass, cap, pc, spins,
-          exit, pos       \* the closure leaves by `exit` when it is called for element `pos` (0-based), else yields a value
-vars == <<form, n, i, slots, pushed, pass, cap, pc, spins, exit, pos>>
+          exit, pos,      \* the closure leaves by `exit` when it is called for element `pos` (0-based), else yields a value
+          led             \* by-value forms (C15): how often each input / output element has been dropped so far
+vars == <<form, n, i, slots, pushed, pass, cap, pc, spins, exit, pos, led>>
+
+\* drop ledger of map_! / from_fn_!: din[q] for the q-th element of the consumed array, dout[q] for the q-th pushed value
+Bump(f, S) == [q \in DOMAIN f |-> IF q \in S THEN f[q] + 1 ELSE f[q]]
 
 Init == /\ form \in Forms /\ n \in 0..MaxN
         /\ i = 0 /\ slots = [q \in 1..n |-> "U"] /\ pushed = 0 /\ pass = 1 /\ cap = 0
         /\ pc = "loop" /\ spins = 0
         /\ exit \in Outcomes /\ pos \in 0..MaxN
         /\ (exit = "Val" => pos = 0) /\ (form = "collect" => exit = "Val")
+        /\ led = [din |-> [q \in 1..n |-> 0], dout |-> [q \in 1..n |-> 0]]
 
 \* array::map! / from_fn!:  while i < len { out[i] = MaybeUninit::new(mapper); i += 1 }  assert!(i == len)
 MapIter(o) ==
     /\ form = "map" /\ pc = "loop" /\ i < n
-    /\ UNCHANGED <<form, n, pushed, pass, cap, exit, pos>>
+    /\ UNCHANGED <<form, n, pushed, pass, cap, exit, pos, led>>
     /\ CASE o = "Val"      -> slots' = [slots EXCEPT ![i + 1] = "I"] /\ i' = i + 1 /\ UNCHANGED <<pc, spins>>
          [] o = "Break"    -> pc' = "after" /\ UNCHANGED <<slots, i, spins>>
          [] o = "Continue" -> spins' = spins + 1 /\ UNCHANGED <<slots, i, pc>>        \* `i` is not advanced
          [] o = "Return"   -> pc' = "left" /\ UNCHANGED <<slots, i, spins>>
          [] o = "Panic"    -> pc' = "panicked" /\ UNCHANGED <<slots, i, spins>>
 MapExit == /\ form = "map" /\ pc = "loop" /\ i = n /\ pc' = "after"
-           /\ UNCHANGED <<form, n, i, slots, pushed, pass, cap, spins, exit, pos>>
+           /\ UNCHANGED <<form, n, i, slots, pushed, pass, cap, spins, exit, pos, led>>
 MapAssert == /\ form = "map" /\ pc = "after"
              /\ pc' = IF Guarded /\ i # n THEN "panicked" ELSE "assume"
-             /\ UNCHANGED <<form, n, i, slots, pushed, pass, cap, spins, exit, pos>>
+             /\ UNCHANGED <<form, n, i, slots, pushed, pass, cap, spins, exit, pos, led>>
 
 \* array::map_! / from_fn_!:  while let Some(e) = consumer.next() { builder.push(mapper) }  forget(consumer); builder.build()
 ByValIter(o) ==
     /\ form = "map_byval" /\ pc = "loop" /\ i < n
     /\ UNCHANGED <<form, n, pass, cap, exit, pos>>
+    \* consumer.next() hands element i+1 to the closure, which owns it: it is dropped there exactly once whatever the
+    \* closure does next (consumed by the mapping, or dropped when the closure body is left early).
+    \* `return` / a panic additionally run the destructors of the locals: the ArrayConsumer drops the elements it
+    \* still holds, the ArrayBuilder the values pushed so far.
+    /\ led' = [din |-> Bump(led.din, {i + 1} \cup (IF o \in {"Return", "Panic"} THEN (i + 2)..n ELSE {})),
+               dout |-> Bump(led.dout, IF o \in {"Return", "Panic"} THEN 1..pushed ELSE {})]
     /\ CASE o = "Val"      -> slots' = [slots EXCEPT ![pushed + 1] = "I"] /\ pushed' = pushed + 1 /\ i' = i + 1 /\ UNCHANGED <<pc, spins>>
          [] o = "Break"    -> pc' = "after" /\ i' = i + 1 /\ UNCHANGED <<slots, pushed, spins>>
          \* `continue` re-evaluates consumer.next(): the element is consumed, nothing is pushed
@@ -58,9 +69,12 @@ ByValIter(o) ==
          [] o = "Return"   -> pc' = "left" /\ i' = i + 1 /\ UNCHANGED <<slots, pushed, spins>>
          [] o = "Panic"    -> pc' = "panicked" /\ i' = i + 1 /\ UNCHANGED <<slots, pushed, spins>>
 ByValExit == /\ form = "map_byval" /\ pc = "loop" /\ i = n /\ pc' = "after"
-             /\ UNCHANGED <<form, n, i, slots, pushed, pass, cap, spins, exit, pos>>
+             /\ UNCHANGED <<form, n, i, slots, pushed, pass, cap, spins, exit, pos, led>>
+\* mem::forget(consumer) (whatever it still holds is leaked - only after `break`), then build(): assert!(is_full);
+\* when the assertion fails the builder is dropped by the unwinding
 ByValBuild == /\ form = "map_byval" /\ pc = "after"
               /\ pc' = IF Guarded /\ pushed # n THEN "panicked" ELSE "assume"       \* build(): assert!(is_full)
+              /\ led' = IF Guarded /\ pushed # n THEN [led EXCEPT !.dout = Bump(led.dout, 1..pushed)] ELSE led
               /\ UNCHANGED <<form, n, i, slots, pushed, pass, cap, spins, exit, pos>>
 
 \* collect_const!: pass 1 counts the items (CAP), pass 2 writes array[length] and asserts length == CAP.
@@ -68,28 +82,39 @@ ByValBuild == /\ form = "map_byval" /\ pc = "after"
 CollectIter ==
     /\ form = "collect" /\ pc = "loop" /\ i < n
     /\ IF pass = 2 THEN slots' = [slots EXCEPT ![i + 1] = "I"] ELSE UNCHANGED slots
-    /\ i' = i + 1 /\ UNCHANGED <<form, n, pushed, pass, cap, pc, spins, exit, pos>>
+    /\ i' = i + 1 /\ UNCHANGED <<form, n, pushed, pass, cap, pc, spins, exit, pos, led>>
 CollectEnd ==
     /\ form = "collect" /\ pc = "loop" /\ i = n
     /\ IF pass = 1 THEN cap' = i /\ pass' = 2 /\ i' = 0 /\ UNCHANGED pc
        ELSE pc' = (IF Guarded /\ i # cap THEN "panicked" ELSE "assume") /\ UNCHANGED <<cap, pass, i>>
-    /\ UNCHANGED <<form, n, slots, pushed, spins, exit, pos>>
+    /\ UNCHANGED <<form, n, slots, pushed, spins, exit, pos, led>>
 
 \* array_assume_init / the read in build()
-Assume == /\ pc = "assume" /\ pc' = "returned" /\ UNCHANGED <<form, n, i, slots, pushed, pass, cap, spins, exit, pos>>
+Assume == /\ pc = "assume" /\ pc' = "returned" /\ UNCHANGED <<form, n, i, slots, pushed, pass, cap, spins, exit, pos, led>>
+\* by-value forms: the caller eventually drops the returned array
+CallerDrop == /\ form = "map_byval" /\ pc = "returned" /\ pc' = "finished"
+              /\ led' = [led EXCEPT !.dout = Bump(led.dout, 1..n)]
+              /\ UNCHANGED <<form, n, i, slots, pushed, pass, cap, spins, exit, pos>>
 
 \* what the closure does when called for the current element
 Outcome == IF exit # "Val" /\ i = pos THEN exit ELSE "Val"
 
 Next == MapIter(Outcome) \/ ByValIter(Outcome) \/ MapExit \/ MapAssert \/ ByValExit \/ ByValBuild
-           \/ CollectIter \/ CollectEnd \/ Assume
+           \/ CollectIter \/ CollectEnd \/ Assume \/ CallerDrop
 Spec == Init /\ [][Next]_vars
 
 \* precondition of assume_init: every slot has been written
 AssumePre == pc \in {"assume", "returned"} => \A q \in 1..n : slots[q] = "I"
 SpinBound == spins <= 1
 
+\* C15 on the by-value forms: nothing is dropped twice; on a path that runs to completion (the array was returned and
+\* dropped by the caller, or the closure returned from the enclosing function) every element was dropped exactly once
+NoDoubleDrop == \A q \in 1..n : led.din[q] <= 1 /\ led.dout[q] <= 1
+CompletedNoLeak == form = "map_byval" /\ pc \in {"finished", "left"} =>
+                      /\ \A q \in 1..n : led.din[q] = 1
+                      /\ \A q \in 1..pushed : led.dout[q] = 1
+
 \* how a run ends, as the generated programs can observe it
-Ending == CASE pc = "returned" -> "value" [] pc = "panicked" -> "panic" [] pc = "left" -> "left"
+Ending == CASE pc \in {"returned", "finished"} -> "value" [] pc = "panicked" -> "panic" [] pc = "left" -> "left"
             [] spins >= 1 -> "loop" [] OTHER -> "running"
 =============================================================================
